@@ -48,6 +48,19 @@ def name : Cls → String
   | list_mixed => "list_mixed" | list_dict => "list_dict" | list_dict_gap => "list_dict_gap" | list_infs => "list_infs"
   | list_nested => "list_nested" | dict_empty => "dict_empty" | dict_ => "dict" | range_ => "range" | undefined => "undefined"
 
+def idx : Cls → Nat
+  | none_ => 0 | true_ => 1 | false_ => 2 | int_zero => 3 | int_pos => 4 | int_neg => 5 | int_ts => 6 | int_large => 7
+  | int_big => 8 | int_huge => 9 | int_giant => 10 | float_zero => 11 | float_pos => 12 | float_neg => 13 | float_inf => 14
+  | float_ninf => 15 | float_nan => 16 | str_empty => 17 | str_int => 18 | str_negint => 19 | str_ts => 20
+  | str_bigdigits => 21 | str_hugeint => 22 | str_float => 23 | str_exp => 24 | str_nan => 25 | str_inf => 26
+  | str_pct => 27 | str_fmt_d => 28 | str_fmt_s => 29 | str_b64 => 30 | str_b64_nonutf8 => 31 | str_nonascii => 32
+  | str_surrogate => 33 | str_key => 34 | str_other => 35 | str_repr => 36 | list_empty => 37 | list_int => 38
+  | list_str => 39 | list_numstr => 40 | list_mixed => 41 | list_dict => 42 | list_dict_gap => 43 | list_infs => 44
+  | list_nested => 45 | dict_empty => 46 | dict_ => 47 | range_ => 48 | undefined => 49
+
+/-- comparison through the constructor index: cheap for the kernel -/
+instance : BEq Cls := ⟨fun a b => Nat.beq a.idx b.idx⟩
+
 def ofName? (s : String) : Option Cls := all.find? (fun c => c.name == s)
 
 def isBool : Cls → Bool | true_ | false_ => true | _ => false
